@@ -178,6 +178,19 @@ func c13Generate(c *mon.Ctx) {
 		}
 	}
 
+	// every pair of special factors (0, 1, 2, n-1, n-2, (n+1)/2) multiplied by the library; the product compared with the
+	// same value written as limbs and with zero
+	for k := 0; k < mon.NMulSpecial; k++ {
+		mon.MulSpecialIndex = k
+		mv := mon.PlanScalarMove("mul-special", mr)
+		mon.MulSpecialIndex = -1
+
+		for _, other := range []string{mv.To, "0"} {
+			other := other
+			c.Structured(func() any { return &c13Case{Op: "cmp", S: mv.To, T: other, Class: "history", Move: &mv} })
+		}
+	}
+
 	c.Random(c.N(400000, 40000000), func(r *gen.Rng) any {
 		if r.Intn(4) == 0 {
 			cond := r.U64()
